@@ -134,3 +134,10 @@ META["C04"] = dict(
     text="Theorem C04_bound: in every reachable state in_flight <= concurrency and the pool keeps exactly `concurrency` workers. C04_all_usable_instances exhibits schedules with all workers busy for pools of 1-4 workers (the general existence statement is observed on the real pools by rendezvous bodies that only return when `concurrency` of them overlap).",
     note="Trusted: Coq kernel; handle distinctness is structural in the model and observed (pointer set) in the code; the 'all workers usable' direction is proved for instances and otherwise exploration-level; extraction + driver; harness.",
 )
+
+META["C09"] = dict(
+    design_ref="DESIGN.md section 5, C09",
+    technique="Coq proofs by list induction over the delivered-tick sequence of a transducer model of the ticking loop: shape of the action sequence, requests = evaluated values, nothing after the context ends, and the cadence bound 1 + floor(e/interval) under the never-early ticker hypothesis; one-sided timing correspondence on real runs with a logging rate function, judged by the extracted predicate",
+    text="Theorems C09_loop, C09_unchanged, C09_nothing_after_done, C09_cadence: the loop evaluates the rate at once and then once per received tick, each evaluation's value is exactly the following request, nothing is evaluated or requested after the context ended, and for any scheduling delays at most 1 + floor(e/interval) evaluations happen within elapsed time e, given that the j-th received tick is not earlier than j intervals after the first evaluation.",
+    note="Trusted: Coq kernel; the Go ticker's behaviour (never early, capacity-one channel) is a hypothesis of the cadence theorem, observed one-sidedly by the harness; wall-clock accuracy is the runtime's; extraction + driver; harness.",
+)
